@@ -1,9 +1,120 @@
-(* C15 — codec parameter parsing is spec-correct and total.  Statements only. *)
+(* C15 — codec parameter parsing is spec-correct and total on arbitrary bytes.
+   Statements only; the proofs are in Proofs/C15*.v. *)
 From Coq Require Import ZArith List Bool.
-From V Require Import C15BitFmt C15BitFmtProofs.
+From V Require Import C15BitFmt C15Ebsp C15H264 C15Hevc C15Asc
+  C15BitFmtProofs C15EbspProofs C15H264Proofs C15HevcProofs C15AscProofs.
 Import ListNotations.
+Open Scope Z_scope.
 
+(* the bit reader of utils/bits against the standard's ue(v)/se(v) codes, every code length *)
+Theorem C15_read_ue_roundtrip : forall v rest,
+  0 <= v <= UE_MAX -> read_ue (ue_bits v ++ rest) = Some (v, rest).
+Proof. exact read_ue_roundtrip. Qed.
+Print Assumptions C15_read_ue_roundtrip.
+
+Theorem C15_read_se_roundtrip : forall v rest,
+  - (2 ^ 31 - 1) <= v <= 2 ^ 31 - 1 -> read_se (se_bits v ++ rest) = Some (v, rest).
+Proof. exact read_se_roundtrip. Qed.
+Print Assumptions C15_read_se_roundtrip.
+
+(* generic: decoding what the encoder of the same description wrote returns the encoded record *)
 Theorem C15_fmt_roundtrip : forall f e a b a',
   emit f e a = Some (b, a') -> forall rest, parse f a (b ++ rest) = Some (a', rest).
 Proof. exact fmt_roundtrip. Qed.
 Print Assumptions C15_fmt_roundtrip.
+
+(* the Go decoders' descriptions accept everything the standard's descriptions can encode *)
+Theorem C15_go_refines_std :
+  refines std_h264_sps go_h264_sps /\ refines std_h265_sps go_h265_sps /\
+  refines std_h265_vps go_h265_vps.
+Proof. exact (conj h264_refines (conj h265_sps_refines h265_vps_refines)). Qed.
+Print Assumptions C15_go_refines_std.
+
+Theorem C15_ebsp_roundtrip : forall b s, b <> 0 -> unescape_go (escape (b :: s)) = b :: s.
+Proof. exact ebsp_roundtrip. Qed.
+Print Assumptions C15_ebsp_roundtrip.
+
+(* H.264: for every well-ranged syntax record, the decoder run on the emitted, NAL-wrapped and
+   escaped bits reports the standard's cropped width/height (all chroma formats, separate colour
+   planes, field coding), frame rate and fixed-rate flag *)
+Theorem C15_h264_dims_spec : forall rec b a,
+  emit std_h264_sps rec env0 = Some (b, a) ->
+  h264_ranges a = true ->
+  nal_shape_ok (nal_of_bits b) = true ->
+  go_h264_obs (nal_of_bits b) = spec_h264_obs a.
+Proof. exact h264_dims_spec. Qed.
+Print Assumptions C15_h264_dims_spec.
+
+(* H.265 SPS; partial: records whose short-term RPS use inter prediction are outside
+   (Assert in std_rps), D30 *)
+Theorem C15_h265_dims_spec_partial : forall rec b a,
+  emit std_h265_sps rec env0 = Some (b, a) ->
+  h265_ranges a = true ->
+  nal_shape_ok (nal_of_bits b) = true ->
+  go_h265_obs (nal_of_bits b) =
+    Some (spec_width265 a, spec_height265 a, fps_bits (spec_fps265 a), go_fixed265 a).
+Proof. exact h265_dims_spec_partial. Qed.
+Print Assumptions C15_h265_dims_spec_partial.
+
+Theorem C15_h265_vps_spec : forall rec b a,
+  emit std_h265_vps rec env0 = Some (b, a) ->
+  nal_shape_ok (nal_of_bits b) = true ->
+  go_vps_obs (nal_of_bits b) = Some (vps_view a).
+Proof. exact h265_vps_spec. Qed.
+Print Assumptions C15_h265_vps_spec.
+
+(* AudioSpecificConfig: rate index 0..12 and the 24-bit escape, AOT escape, hierarchical and
+   backward-compatible SBR / PS signalling *)
+Theorem C15_asc_spec : forall e,
+  asc_wf e = true -> go_asc (asc_bytes e) = Some (spec_rate e, spec_channels e).
+Proof. exact asc_spec. Qed.
+Print Assumptions C15_asc_spec.
+
+(* totality: every decoder is a total function (structural recursion, no fuel) that answers with
+   an error or a result, and a successful parse leaves a suffix of its input: no bit outside the
+   buffer is read *)
+Theorem C15_parsers_total : forall f a bs,
+  match parse f a bs with
+  | None => True
+  | Some (_, r) => exists used, bs = used ++ r
+  end.
+Proof.
+  intros f a bs. destruct (parse f a bs) as [[a' r]|] eqn:E; auto.
+  exact (parse_suffix _ _ _ _ _ E).
+Qed.
+Print Assumptions C15_parsers_total.
+
+(* the defects repaired in /repo: the pre-repair decoders disagree with the standard *)
+Theorem C15_readse_refuted : exists bs v,
+  read_se bs = Some (v, []) /\ v <> 0 /\ read_se_d27 bs = Some (0, []).
+Proof. exact readse_refuted. Qed.
+Print Assumptions C15_readse_refuted.
+
+Theorem C15_h264_crop_refuted : exists rec b a,
+  emit std_h264_sps rec env0 = Some (b, a) /\ h264_ranges a = true /\
+  spec_width a = 63 /\ go_width_d28 a = 62 /\ go_width a = 63.
+Proof. exact h264_crop_refuted. Qed.
+Print Assumptions C15_h264_crop_refuted.
+
+(* the oracles applied to the implementation accept the model on every input *)
+Theorem C15_model_passes : forall rec data,
+  ok_h264 rec data (go_h264_obs data) = true /\
+  ok_h265 rec data (go_h265_obs data) = true /\
+  ok_vps rec data (go_vps_obs data) = true /\
+  ok_asc rec data (go_asc data) = true.
+Proof.
+  intros. repeat split.
+  - apply h264_model_passes.
+  - apply h265_model_passes.
+  - apply vps_model_passes.
+  - apply asc_model_passes.
+Qed.
+Print Assumptions C15_model_passes.
+
+(* non-vacuity: a 4:4:4 record with cropping meets every hypothesis of C15_h264_dims_spec *)
+Example C15_nonvacuous :
+  match emit std_h264_sps rec_d28 env0 with
+  | Some (b, a) => h264_ranges a && nal_shape_ok (nal_of_bits b) && (spec_width a =? 63) = true
+  | None => False
+  end.
+Proof. vm_compute. reflexivity. Qed.
